@@ -276,7 +276,11 @@ def neighbour_tables(c, snaps, tmp):
                 out.append(line)
                 continue
             k = r.randint(1, int(it[1]))
-            out.append(" ".join([it[0], str(k)] + it[2:2 + k]) + "\n")
+            ids = it[2:2 + k]
+            if r.random() < 0.3:
+                # the same particle listed twice (two periodic images of it are neighbours in a small cell): it counts twice in the mean
+                ids = ids + [ids[r.randrange(len(ids))]]
+            out.append(" ".join([it[0], str(len(ids))] + ids) + "\n")
         with open(fn, "w") as f:
             f.writelines(out)
     # the neighbour rows the dynamics must use: parsed here from the file text (ids − 1), each row cut to the object's
